@@ -146,15 +146,42 @@ pub fn quiet_case(r: &mut Rng, n_calls: usize) -> String {
     let mut put_rx = Vec::new();
     let mut get_rx: Vec<flume::Receiver<Box<[dht::Node]>>> = Vec::new();
     let mut imm_rx: Vec<flume::Receiver<Box<[u8]>>> = Vec::new();
-    let targets: Vec<Id> = (0..3).map(|_| Id::from(id20(r))).collect();
+    // three targets that hold an immutable value on every peer (lookups for them yield values), one that does not
+    let values: Vec<Vec<u8>> = (0..3).map(|i| format!("stored value {}", i).into_bytes()).collect();
+    let mut targets: Vec<Id> = values
+        .iter()
+        .map(|v| {
+            let mut b = format!("{}:", v.len()).into_bytes();
+            b.extend_from_slice(v);
+            Id::from(crate::c03::sha1(&b))
+        })
+        .collect();
+    let valued_targets = targets.clone();
+    targets.push(Id::from(id20(r)));
+    let valued = move |s: &Scn, inc: &Incoming| -> Reply {
+        if let Some(req) = as_request(&inc.msg) {
+            if let RequestTypeSpecific::GetValue(a) = &req.request_type {
+                if let Some(i) = valued_targets.iter().position(|t| *t == a.target) {
+                    return Reply::Msg(MessageType::Response(ResponseSpecific::GetImmutable(GetImmutableResponseArguments {
+                        responder_id: Id::from(s.peers[inc.peer].id),
+                        token: vec![1, 2, 3, 4].into(),
+                        nodes: Some(s.all_nodes().into()),
+                        v: values[i].clone().into(),
+                    })));
+                }
+            }
+        }
+        s.honest(inc)
+    };
     for i in 0..n_calls {
         // some peers go silent for a while; replies may also be duplicated
         let silent: Vec<bool> = (0..n_peers).map(|p| p != 0 && r.chance(1, 4)).collect();
         match r.below(4) {
             0 => {
                 let (tx, rx) = flume::unbounded();
-                let t = if r.chance(1, 2) { *r.pick(&targets) } else { Id::from(id20(r)) };
-                s.node.actor.verif_get(request_of(r.below(4) as u8, t), ResponseSender::ClosestNodes(tx));
+                let t = if r.chance(2, 3) { *r.pick(&targets) } else { Id::from(id20(r)) };
+                let kind = if r.chance(1, 2) { 2 } else { r.below(4) as u8 };
+                s.node.actor.verif_get(request_of(kind, t), ResponseSender::ClosestNodes(tx));
                 get_rx.push(rx);
             }
             1 => {
@@ -192,7 +219,7 @@ pub fn quiet_case(r: &mut Rng, n_calls: usize) -> String {
                         extra.push((inc.peer, inc.from, inc.msg.transaction_id, mt));
                     }
                 }
-                s.honest(inc)
+                valued(s, inc)
             });
             for (p, from, tid, mt) in extra {
                 s.peers[p].send(from, tid, mt, false, None);
@@ -202,17 +229,33 @@ pub fn quiet_case(r: &mut Rng, n_calls: usize) -> String {
             s.advance(r.range(100, 2500));
         }
     }
-    // quiet period: everything honest again, then the clock passes every timeout
+    // quiet period: everything honest again; then, with no reply in transit, the clock passes the request
+    // timeout in force (it adapts to the round trips the node has seen), a few times over
     for _ in 0..40 {
-        s.step(&mut |s, inc| s.honest(inc));
+        s.step(&mut |s, inc| valued(s, inc));
     }
-    s.advance(5000);
-    for _ in 0..10 {
-        s.step(&mut |s, inc| s.honest(inc));
+    for _ in 0..4 {
+        let mut calm = 0;
+        for _ in 0..200 {
+            if s.step(&mut |s, inc| valued(s, inc)) == 0 {
+                calm += 1;
+                if calm >= 3 {
+                    break;
+                }
+            } else {
+                calm = 0;
+            }
+        }
+        let timeout_ms = (s.snap().inflight.3 / 1000) as u64;
+        s.advance(timeout_ms + 200);
+        for _ in 0..6 {
+            s.step(&mut |s, inc| valued(s, inc));
+        }
     }
-    s.advance(5000);
-    for _ in 0..6 {
-        s.step(&mut |s, inc| s.honest(inc));
+    for _ in 0..200 {
+        if s.step(&mut |s, inc| valued(s, inc)) == 0 {
+            break;
+        }
     }
     let snap = s.snap();
     // outcomes: every put has exactly one result; every get stream is closed (sender dropped)
@@ -235,7 +278,13 @@ pub fn quiet_case(r: &mut Rng, n_calls: usize) -> String {
         loop {
             match rx.try_recv() {
                 Ok(_) => n += 1,
-                Err(flume::TryRecvError::Disconnected) => break,
+                Err(flume::TryRecvError::Disconnected) => {
+                    // a closest-nodes caller gets exactly one message: a sender dropped without one is no outcome
+                    if n == 0 {
+                        none += 1;
+                    }
+                    break;
+                }
                 Err(flume::TryRecvError::Empty) => {
                     none += 1;
                     break;
@@ -246,10 +295,11 @@ pub fn quiet_case(r: &mut Rng, n_calls: usize) -> String {
             two += 1;
         }
     }
+    let mut values_seen = 0;
     for rx in &imm_rx {
         loop {
             match rx.try_recv() {
-                Ok(_) => {}
+                Ok(_) => values_seen += 1,
                 Err(flume::TryRecvError::Disconnected) => break,
                 Err(flume::TryRecvError::Empty) => {
                     none += 1;
@@ -258,6 +308,7 @@ pub fn quiet_case(r: &mut Rng, n_calls: usize) -> String {
             }
         }
     }
+    let _ = values_seen;
     format!("KQuiet {} {} {} {} {} {} {}", snap.iterative_queries, snap.put_queries, snap.put_senders.1, snap.get_senders.1, snap.inflight.1, none, two)
 }
 
